@@ -187,6 +187,18 @@ def check_native(case):
     return None
 
 
+def check_interleaved(case):
+    from ..native import run_interleaved
+
+    for which, (got, want) in zip("ab", run_interleaved(case)):
+        sub = case[which]
+        if got != want and want[2] != "crashed":
+            raise Violation(f"C01/{sub['tool'].split('-')[0]}/instance-influenced-by-another-instance",
+                            f"{sub['tool']} over {sub['kinds']} data={sub['data']} p={sub['p']} alongside "
+                            f"{case['b' if which == 'a' else 'a']['tool']}: async={got} stdlib={want}")
+    return None
+
+
 def shards(tier):
     n = 2000
     from ..pipelines import pipelines
@@ -207,6 +219,11 @@ def shards(tier):
     iter_tools = [t for t in TOOLS_N if t not in AGGREGATIONS]
     extra += [Shard(f"native-sources-{i}", check_native, strategy=native_cases(iter_tools), n=1500,
                     nontrivial=lambda c: sum(len(d) for d in c["data"]) >= 2, thorough_mult=15) for i in range(2)]
+    from ..native import interleaved_cases
+
+    extra += [Shard(f"interleaved-instances-{i}", check_interleaved, strategy=interleaved_cases(iter_tools), n=1000,
+                    nontrivial=lambda c: c["a"]["tool"].split("-")[0] == c["b"]["tool"].split("-")[0], thorough_mult=15)
+              for i in range(2)]
     return extra + [
         Shard(name, check, strategy=cases(name, tier),
               n=n, nontrivial=nontrivial, classify=classify, thorough_mult=15)
